@@ -12,6 +12,9 @@ pub fn by_f(a: &F, b: &F) -> bool { a.0.to_bits() == b.0.to_bits() }
 pub fn by_u(a: &u8, b: &u8) -> bool { a == b }
 pub fn cmp_f(a: &F, b: &F) -> ::core::cmp::Ordering { a.0.total_cmp(&b.0) }
 pub fn cmp_u(a: &u8, b: &u8) -> ::core::cmp::Ordering { a.cmp(b) }
+#[derive(Debug, Clone, PartialEq)]
+pub struct Label { pub text: String, pub weight: f32 }
+impl ::core::ops::Deref for Label { type Target = str; fn deref(&self) -> &str { &self.text } }
 pub fn pcmp_f(a: &F, b: &F) -> Option<::core::cmp::Ordering> { a.0.partial_cmp(&b.0) }
 pub fn pcmp_u(a: &u8, b: &u8) -> Option<::core::cmp::Ordering> { a.partial_cmp(b) }
 '''
@@ -255,10 +258,10 @@ class C17(Prop):
         from concurrent.futures import ThreadPoolExecutor
         l2.ensure_macro()
         with ThreadPoolExecutor(max_workers=R.NPROC) as ex:
-            sts = list(ex.map(lambda mo: l2.compile_status('c17lit_%d' % mo.cid, [mo], prelude=PRELUDE), lits))
+            sts = list(ex.map(lambda mo: l2.compile_status('c17lit_%d' % mo.cid, [mo], prelude=PRELUDE, rendered=True), lits))
         for mo, (rc, errs, _) in zip(lits, sts):
             mo.compiled = rc == 0
-            mo.diags = [dict(level='error', message=e) for e in errs]
+            mo.diags = [dict(level='error', message=e[0], rendered=e[1]) for e in errs]
             l2.cleanup('c17lit_%d' % mo.cid)
         mods = mods + lits
         failures, validated, samples = [], 0, []
@@ -271,7 +274,7 @@ class C17(Prop):
             elif not r.meta['ok'] and mo.compiled:
                 failures.append(dict(**{'class': 'eq-accepted-with-non-eq-component', 'mode': 'rustc'}, input=r.input_text(),
                                      expected='rejected: a compared component is not Eq', observed='compiles'))
-            elif not r.meta['ok'] and not any('Eq' in d['message'] or (r.meta.get('other_reason') or '\0') in d['message'] for d in errs):
+            elif not r.meta['ok'] and not any('Eq' in d['message'] or 'Eq' in d.get('rendered', '') or (r.meta.get('other_reason') or '\0') in d['message'] for d in errs):
                 failures.append(dict(**{'class': 'eq-rejected-for-another-reason', 'mode': 'rustc'}, input=r.input_text(),
                                      expected='E0277 .. Eq is not satisfied', observed=[d['message'] for d in errs][:3]))
             else:
@@ -294,6 +297,12 @@ GENERIC_COMPONENTS = [
     ('pub struct X<T> { pub v: [T; 2], pub w: ::core::marker::PhantomData<(F, T)> }', 'X<u8>', True),   # PhantomData<_> is Eq
     ('pub struct X<T, U>(pub T, pub (U, u8));', 'X<u8, F>', False),
     ('pub struct X<T, U>(pub T, #[eq(ignore)] pub (U, u8));', 'X<u8, F>', True),
+    # a float-like component that DEREFS to an `Eq` type (the assertion is about the component's own type, not about
+    # anything method resolution can reach from it)
+    ('pub struct X { pub id: u32, pub label: Label }', 'X', False),
+    ('pub enum X { A(Box<Label>), B }', 'X', False),
+    ('pub struct X(#[eq(key = &$.1)] pub (u32, Label));', 'X', False),
+    ('pub struct X(#[eq(key = $.1.len())] pub (u32, Label));', 'X', True),
 ]
 
 
